@@ -127,8 +127,8 @@ def wellformed(repo: Repo, rep: "Report", only_touched: bool = False) -> None:
     from .engines import wellformed as W
     rid = "W0-wellformed"
     if rid not in rep.rules:
-        rep.rule(rid, "E12: no load of a name bound nowhere (NameError), no one-element closure cell indexed past 0 (IndexError) in the "
-                      "property's anchor files and in every module its rules read", floor=1)
+        rep.rule(rid, "E12: no load of a name bound nowhere (NameError), no local read on a path that has not assigned it (UnboundLocalError), no "
+                      "one-element closure cell indexed past 0 (IndexError) in the property's anchor files and in every module its rules read", floor=1)
         rep.ob(rid, "sa/engines/wellformed.py", "embedded positive example is reported (witness for a zero-expected rule)", W.selfcheck(),
                "the well-formedness engine no longer reports its embedded positive example")
         rep._wf_done = set()
@@ -142,8 +142,10 @@ def wellformed(repo: Repo, rep: "Report", only_touched: bool = False) -> None:
             continue
         und = W.undefined_names(m.src, rel)
         bad = W.bad_cell_indices(m.src)
-        rep.ob(rid, f"{rel}::<module>", f"{rel}: names resolve, cell indices in range", not und and not bad,
-               "; ".join([f"line {ln}: `{nm}` is loaded in {sc}() but bound in no enclosing scope, not at module level and not a builtin "
+        unb = W.possibly_unbound(m.src)
+        rep.ob(rid, f"{rel}::<module>", f"{rel}: names resolve, locals assigned on every path to their reads, cell indices in range", not und and not bad and not unb,
+               "; ".join([f"line {ln}: local `{nm}` of {fn_}() is read on a path on which no assignment to it has run (UnboundLocalError; the repository's own "
+                          f"type-check configuration, pyright strict, rejects possibly-unbound locals)" for ln, nm, fn_ in unb] + [f"line {ln}: `{nm}` is loaded in {sc}() but bound in no enclosing scope, not at module level and not a builtin "
                           f"(NameError when reached: the assignment that defined it is gone)" for ln, nm, sc in und] +
                          [f"line {ln}: one-element cell `{c}` indexed with {i} (IndexError when reached)" for ln, c, i in bad]))
 
